@@ -322,6 +322,12 @@ func c08RenderFile(name string, imports []string, blocks []*App, indent string, 
 			if td.Kind == "alias" && !td.AliasIndented {
 				r.put(" " + renderTExpr(*td.Alias))
 			}
+			if (td.Kind == "tuple" || td.Kind == "relation") && len(td.Fields) == 0 && len(td.Meta.Annos) == 0 {
+				// a declaration without a body: the '...' placeholder form
+				r.put(" ...")
+				r.end()
+				continue
+			}
 			r.end()
 			switch td.Kind {
 			case "tuple", "relation":
